@@ -151,6 +151,16 @@ def asRatPairs (v : Json) : Except String (List (String × Rat)) := do
     | .arr #[k, q] => pure (← asStr k, ← asRat q)
     | _ => .error "!bad-arg:dict"
 
+/-- `rxns` with an optional non-Reaction item inserted at position `bad_at` -/
+def getItems (j : Json) : Except String (List (Option Rxn)) := do
+  let rs ← (← getArr j "rxns").mapM asRxn
+  match j.getObjVal? "bad_at" with
+  | .ok .null => pure (rs.map some)
+  | .ok v => do
+      let i ← asNatJ v
+      pure ((rs.take i).map some ++ [none] ++ (rs.drop i).map some)
+  | .error _ => pure (rs.map some)
+
 def h : Handler := fun op j =>
   match op with
   | "make" => do
@@ -192,9 +202,15 @@ def h : Handler := fun op j =>
       | .ok (y, n) => pure (Json.arr #[jSys y, jSys n]).compress
       | .error c => pure (checkName c)
   | "add" => do pure (jSys (add (← getSys j "a") (← getSys j "b"))).compress
-  | "add_rxns" => do pure (jSys (addRxns (← getSys j "a") (← (← getArr j "rxns").mapM asRxn))).compress
+  | "add_rxns" => do
+      match addItems (← getSys j "a") (← getItems j) with
+      | some s => pure (jSys s).compress
+      | none => pure "ValueError"
   | "iadd" => do pure (jSys (iadd (← getSys j "a") (← getSys j "b"))).compress
-  | "iadd_rxns" => do pure (jSys (iaddRxns (← getSys j "a") (← (← getArr j "rxns").mapM asRxn))).compress
+  | "iadd_rxns" => do
+      match iaddItems (← getSys j "a") (← getItems j) with
+      | some s => pure (jSys s).compress
+      | none => pure "ValueError"
   | "eq" => do pure (toString ((← getSys j "a").pyEq (← getSys j "b")))
   | "concatenate" => do
       match concatenate (← (← getArr j "systems").mapM asSys) with
@@ -204,7 +220,10 @@ def h : Handler := fun op j =>
       let cont ← match j.getObjVal? "cont" with
         | .ok v => asRatPairs v
         | _ => .error "!bad-arg:cont"
-      match asPerSubstanceArrayDict (← getSys j "sys") cont (← getBool j "raise_on_unk") with
+      let res ← match j.getObjVal? "default" with
+        | .ok v => do pure (asPerSubstanceArrayDefaultDict (← getSys j "sys") cont (← asRat v) (← getBool j "raise_on_unk"))
+        | .error _ => do pure (asPerSubstanceArrayDict (← getSys j "sys") cont (← getBool j "raise_on_unk"))
+      match res with
       | .ok l => pure (showRatList l)
       | .error e => pure (contErr e)
   | "array_from_list" => do
